@@ -75,11 +75,49 @@ def show(e):
     return repr(e)
 
 
-def paths(fn, max_paths=64, max_len=400, skip_loops=False):
+def _loop_assigned(fn):
+    """block -> locals assigned anywhere in the strongly connected component (loop) the block belongs to"""
+    succ = fn.succ
+    n = len(fn.blocks)
+    reach_ = {}
+
+    def fwd(b):
+        if b in reach_:
+            return reach_[b]
+        seen, st = set(), [b]
+        while st:
+            x = st.pop()
+            for y in succ[x]:
+                if y not in seen:
+                    seen.add(y)
+                    st.append(y)
+        reach_[b] = seen
+        return seen
+    res = {}
+    for b in range(n):
+        if b not in fwd(b):
+            continue
+        scc = [x for x in fwd(b) if b in fwd(x)]
+        ls = set()
+        for x in scc:
+            for s_ in fn.blocks[x]["s"]:
+                if s_["k"] == "assign":
+                    ls.add(s_["lhs"]["l"])
+            t_ = fn.blocks[x]["t"]
+            if t_["k"] == "call":
+                ls.add(t_["dest"]["l"])
+        res[b] = ls
+    return res
+
+
+def paths(fn, max_paths=64, max_len=400, skip_loops=False, havoc_loops=False):
     """Yield (conds, result_expr) for each acyclic entry->return path. conds = [(expr, taken_value)].
     skip_loops: paths that run into a loop are dropped instead of making the whole function TooComplex (the caller selects the
-    loop-free region it is interested in by the path conditions)."""
+    loop-free region it is interested in by the path conditions).
+    havoc_loops (with skip_loops): on entering a loop every local the loop assigns becomes an unknown named after the local, so the path
+    that leaves the loop carries `what the loop computed` as a symbol instead of the value before the first iteration."""
     out = []
+    loop_ls = _loop_assigned(fn) if havoc_loops else {}
 
     def op_expr(env, op):
         p = op_place(op)
@@ -142,6 +180,9 @@ def paths(fn, max_paths=64, max_len=400, skip_loops=False):
             raise TooComplex("path too long")
         visited = visited | {b}
         env = dict(env)
+        if b in loop_ls and not any(x in loop_ls and loop_ls[x] is loop_ls[b] or (x in loop_ls and loop_ls[x] == loop_ls[b]) for x in visited - {b}):
+            for l_ in loop_ls[b]:
+                env[l_] = ("p", "loop:" + (fn.local_name(l_) or f"_{l_}"))
         blk = fn.blocks[b]
         for s in blk["s"]:
             if s["k"] == "assign":
